@@ -6,7 +6,7 @@ OG(pat) == [pat |-> pat, kids |-> <<>>, glob |-> TRUE, orev |-> FALSE]
 OR(pat) == [pat |-> pat, kids |-> <<>>, glob |-> FALSE, orev |-> TRUE]
 OrdCatalog == <<
   \* flat: c first, then a, b; removal of m pinned between them; PrefixX unmentioned
-  << O(<<T("c"), TT>>, <<>>), OR(<<T(Prefix), T("m"), TT>>), O(<<T("a"), ST>>, <<>>), O(<<T("b")>>, <<>>) >>,
+  << O(<<T("c"), TT>>, <<>>), OR(<<T(Prefix), T("m"), TT>>), O(<<T(PrefixX), ST>>, <<>>), O(<<T("a"), ST>>, <<>>), O(<<T("b")>>, <<>>) >>,
   \* nest: blk before a; inside: y, sub{z}, x
   << O(<<T("blk"), ST>>, << O(<<T("y")>>, <<>>), O(<<T("sub"), ST>>, << O(<<T("z"), ST>>, <<>>) >>), O(<<T("x"), ST>>, <<>>) >>), O(<<T("a"), ST>>, <<>>) >>,
   \* logics: p, s, i, b
@@ -22,6 +22,7 @@ OrdCatalog == <<
   << O(<<T("ip"), TT>>, <<>>) >>,
   << OG(<<T("description")>>), O(<<T("bgp")>>, << O(<<T("peer"), ST>>, << O(<<T("as"), ST>>, <<>>) >>) >>) >>,
   << O(<<T("ps"), ST>>, << O(<<T("term"), ST>>, <<>>) >>) >>,
+  << O(<<T("interfaces")>>, <<>>), O(<<T("interface"), ST>>, << O(<<T("shutdown")>>, <<>>), O(<<T("mtu")>>, <<>>) >>), O(<<T("a"), ST>>, <<>>) >>,
   << O(<<T("a"), ST>>, <<>>), O(<<T("rv"), ST>>, <<>>) >>
 >>
 \* disjointness of sibling languages over the instance universe of the patching catalogue (domain assumption of C08)
